@@ -209,17 +209,15 @@ theorem serStmt_des (hS : Sound C) : ∀ (s : Stmt) (pos : Nat) (d acc : Dict) (
     · rename_i hfresh
       simp at h
       obtain ⟨h1, h2, h3⟩ := h; subst h1 h2 h3
-      simp only [Bool.or_eq_true, not_or, Bool.not_eq_true] at hfresh
-      simp only [desStmt, hfresh.2, Bool.false_eq_true, if_false, List.nil_append]
+      have hacc : acc.has t = false := by simpa using hfresh
+      simp only [desStmt, hacc, Bool.false_eq_true, if_false, List.nil_append]
       refine ⟨trivial, ?_⟩
       intro k hk
-      rw [has_append, hd k hk]
+      rw [has_erase] at hk
+      simp only [Bool.and_eq_true] at hk
+      rw [has_append, hd k hk.1]
       have : (t == k) = false := by
-        cases hkt : (t == k) with
-        | false => rfl
-        | true =>
-          have : t = k := by simpa using hkt
-          subst this; rw [hfresh.1] at hk; cases hk
+        have := hk.2; simp at this ⊢; exact fun h => this h.symm
       simp [this]
 theorem serBody_des (hS : Sound C) : ∀ (body : List Stmt) (pos : Nat) (d acc : Dict) (b : List Bool) (acc' d' : Dict),
     serBody C pos body d acc = some (b, acc', d') → Disj d acc →
